@@ -15,11 +15,11 @@ type EvalCtx struct {
 	pkg   *types.Package
 	vars  map[string]Term // parameters, results, local names, bound variables
 	st    *State          // current state (heap versions)
-	old   *heapSnap // heap snapshot for old(); nil => initial versions
+	old   *heapSnap       // heap snapshot for old(); nil => initial versions
 	inOld bool
 	depth int
 	prev  map[string]Term // values at the previous loop head (for step clauses)
-	facts *[]string // side facts (heap closedness) collected during evaluation of ground terms
+	facts *[]string       // side facts (heap closedness) collected during evaluation of ground terms
 }
 
 func (c *EvalCtx) with(name string, t Term) *EvalCtx {
